@@ -32,6 +32,8 @@ impl ChainStorage {
             None => return Ok(None),
         };
 
+        #[cfg(feature = "verif")]
+        crate::verif::fetch(height, block_meta.blk_index, block_meta.data_offset);
         let blk_file = match self.blk_files.get_mut(&block_meta.blk_index) {
             Some(blk_file) => blk_file,
             None => {
@@ -50,6 +52,8 @@ impl ChainStorage {
             blk_file.close()
         }
 
+        #[cfg(feature = "verif")]
+        crate::verif::fd_census(height);
         if self.verify {
             self.verify(&block, height)?;
         }
